@@ -103,9 +103,9 @@ def logical(path):
     for r in REQUIRED:
         if r not in files:
             raise CorruptArchive(f"missing {r}")
-    for r in REQUIRED_DIRS:
-        if r not in dirs:
-            raise CorruptArchive(f"missing directory {r}")
+    # (empty inventory directories are part of the content that is compared
+    # between archives, but their absence alone is not "corrupt": eko can read
+    # such an archive)
     out = {}
     for name, data in files.items():
         try:
